@@ -27,7 +27,13 @@ class Hang(BaseException):
     pass
 
 
+_HUNG = [False]
+
+
 def _alarm(*_a):
+    # the exception may land inside an asyncio task instead of the main coroutine; the flag is
+    # what run_guarded trusts
+    _HUNG[0] = True
     raise Hang()
 
 
@@ -177,8 +183,10 @@ class VirtualLoop(asyncio.SelectorEventLoop):
 
 async def _drain(it):
     for _ in range(20000):
+        if _HUNG[0]:
+            raise Hang()
         await asyncio.sleep(0)
-        if it._event_queue.empty() and not it._processing:
+        if not it._processing and (it._event_queue.empty() or it.status != "running"):
             return
     raise Hang()
 
@@ -226,6 +234,7 @@ async def _run_async(case):
 
 def run_async(case):
     loop = VirtualLoop()
+    loop.set_exception_handler(lambda _l, _c: None)
     asyncio.set_event_loop(loop)
     try:
         return loop.run_until_complete(_run_async(case))
@@ -246,10 +255,13 @@ RUNNERS = {"sync": run_sync, "async": run_async}
 def run_guarded(flavor, case, timeout=10):
     """run one case under a SIGALRM watchdog; returns ('ok', obs) | ('hang', None) | ('crash', repr)"""
     old = signal.signal(signal.SIGALRM, _alarm)
+    _HUNG[0] = False
     signal.alarm(timeout)
     try:
         r = RUNNERS[flavor](case)
         signal.alarm(0)
+        if _HUNG[0]:
+            return ("hang", None)
         return ("ok", r)
     except Hang:
         signal.alarm(0)
@@ -259,6 +271,8 @@ def run_guarded(flavor, case, timeout=10):
         return ("crash", "RecursionError")
     except Exception as x:  # a raw (non-library) exception escaping the public API
         signal.alarm(0)
+        if _HUNG[0]:
+            return ("hang", None)
         return ("crash", f"RAW:{type(x).__name__}: {x}"[:300])
     finally:
         signal.alarm(0)
